@@ -27,7 +27,7 @@ CHECKS = {
         level="fault_enumeration",
         technique="enumerated configuration matrix with a recording observer on the carrier + property-based testing (rapid) of scripted misbehaving peers at each handshake step; marker-on-the-wire oracle",
         rule=("four generated experiments. (1) real client x real server with a recording observer on the carrier (TCP/UDP relay, "
-              "pipe tap): the matrix (carrier tcp/tcp+tls/http/https/stdio/stdio+tls/udp/dns) x server certificate x require-"
+              "pipe tap): the matrix (carrier tcp/tcp+tls/http/https/stdio/stdio+tls/udp with and without shared secret/dns) x server certificate x require-"
               "security x insecure flag is enumerated; a 32-byte high-entropy marker inside generated padding is echoed through; "
               "oracle: never 'reported secure and marker on the wire', never marker on the wire / data carried when security is "
               "required, StartTLS offered => session is tls or absent, session exists iff the model says so; unprotected sessions "
